@@ -124,24 +124,31 @@ namespace verif48 {
       return r;
     }
     bool doPackagingStep(mtest::CurrentState&, mtest::BehaviourWorkSpace&) const override { return true; }
-    void fill(tfel::math::matrix<real>& k, const tfel::math::vector<real>& e) const {
+    //! the tangent operator; the "elastic" one ignores the non linear term (modified Newton)
+    void fill(tfel::math::matrix<real>& k,
+              const tfel::math::vector<real>& e,
+              const mtest::StiffnessMatrixType t = mtest::StiffnessMatrixType::CONSISTENTTANGENTOPERATOR) const {
+      const bool elastic = (t == mtest::StiffnessMatrixType::ELASTIC) ||
+                           (t == mtest::StiffnessMatrixType::ELASTICSTIFNESSFROMMATERIALPROPERTIES);
       for (unsigned short i = 0; i != ndv; ++i) {
         for (unsigned short j = 0; j != ndv; ++j) {
           k(i, j) = D[i * ndv + j];
         }
-        k(i, i) += 3 * nl * e[i] * e[i];
+        if (!elastic) {
+          k(i, i) += 3 * nl * e[i] * e[i];
+        }
       }
     }
     std::pair<bool, real> computePredictionOperator(mtest::BehaviourWorkSpace& wk,
                                                     const mtest::CurrentState& s,
-                                                    const mtest::StiffnessMatrixType) const override {
-      fill(wk.kt, s.e0);
+                                                    const mtest::StiffnessMatrixType t) const override {
+      fill(wk.kt, s.e0, t);
       return {true, 1};
     }
     std::pair<bool, real> integrate(mtest::CurrentState& s,
                                     mtest::BehaviourWorkSpace& wk,
                                     const real,
-                                    const mtest::StiffnessMatrixType) const override {
+                                    const mtest::StiffnessMatrixType t) const override {
       std::pair<bool, real> a{true, 1};
       if (pos < script.size()) {
         a = script[pos++];
@@ -156,7 +163,7 @@ namespace verif48 {
         }
         s.s1[i] = v;
       }
-      fill(wk.k, s.e1);
+      fill(wk.k, s.e1, t);
       return a;
     }
     ~MockBehaviour() override = default;
